@@ -23,6 +23,7 @@ PLAN = {
     "c20_loc": ["asan"],
     "c11_life": ["asan"],
     "c07_const": ["asan"],
+    "c06_dispatch": ["asan"],
     "c13_threads": ["tsan"],
 }
 
